@@ -353,6 +353,10 @@ func (famLogq) Exec(scn int, raw json.RawMessage, t *Trace, opt map[string]strin
 
 var lqWords = []string{"a", "ab", "b", "ba", "abc", "x", "", "a b", "err", "warn", "a=b"}
 var lqNums = []string{"0", "1", "5", "5.5", "10", "42", "007", "3.14", "100", "010", "0100", "00120"} // zero-padded: decimal all the same
+// label VALUES the three parsers meet in the data (a wider set of spellings than the literals written in queries)
+var lqNumVals = append([]string{"1e3", "+5", ".5", "5.", "2.5e-1", "1E2", "-0.5", "1e", "0x10", "1_0", "inf", "5e-1"}, lqNums...)
+var lqDurVals = append([]string{"1.5h", "-5s", "100us", "1000ns", ".5s", "1.5ns", "+2s", "1h1m1s", "0.5m"}, lqDurs...)
+var lqByteVals = append([]string{"1.5KB", "0.5KiB", "2.5MB", "1.1KB", "0B", "1.25KiB"}, lqBytes...)
 var lqDurs = []string{"1s", "500ms", "2s", "1m", "1m30s", "1.5s", "1h", "90s"}
 var lqBytes = []string{"1B", "5B", "1KB", "1KiB", "2kb", "1MB", "999B", "10b", "1MiB"} // always with a unit: a bare number is a number literal
 var lqGarbage = []string{"x", "abc", "zz9", "", "q1"}
@@ -513,11 +517,11 @@ func genRecs(r *rand.Rand, n int, uniqueTS bool) []MemRec {
 				var val string
 				switch r.Intn(5) {
 				case 0:
-					val = pick(r, lqNums)
+					val = pick(r, lqNumVals)
 				case 1:
-					val = pick(r, lqDurs)
+					val = pick(r, lqDurVals)
 				case 2:
-					val = pick(r, lqBytes)
+					val = pick(r, lqByteVals)
 				case 3:
 					val = pick(r, lqGarbage)
 				default:
@@ -543,7 +547,7 @@ func genRecs(r *rand.Rand, n int, uniqueTS bool) []MemRec {
 			rec.Attrs = append(rec.Attrs, [2][]int{B("app"), B(pick(r, []string{"a", "b", "web"}))})
 		}
 		if r.Intn(4) == 0 {
-			rec.Attrs = append(rec.Attrs, [2][]int{B("n"), B(pick(r, lqNums))})
+			rec.Attrs = append(rec.Attrs, [2][]int{B("n"), B(pick(r, lqNumVals))})
 		}
 		recs = append(recs, rec)
 	}
